@@ -159,7 +159,37 @@ def C06(name, entry, tu, desc):
     H(id='C06_' + name, property='C06', src='C06_groups.cc', entry=entry, tu=tu, unwind=24, replace=PROTO_REPLACE,
       defines={'H_MAXDRAWS': 4, 'MINISTL_STREAM_CAP': 256, 'H_DBITS': 4, 'H_HMAX': 5, 'MINISTL_STRING_MINCAP': 63}, config={'TMCG_MAX_FPOWM_T': 8},
       desc=desc, symbolic='q, k / h, g in [-1, 2^W+2), canonical flag, element a in [-2, p+3), hash oracle outputs', assumptions=PROTO_ASSUME,
-      bounds='every p in [0, 2^W), W=5 (quick) / 6 (thorough), one query per p; F_size=3, G_size=2; at most 4 generator candidates',
-      slices=mk(5), backend='kissat', memgb=6, tiers={'thorough': {'slices': mk(6), 'timeout': 3000}})
+      bounds='every p in [0, 2^W), W=4 (quick) / 6 (thorough), one query per p; F_size=3, G_size=2; at most 4 generator candidates',
+      slices=mk(4), backend='kissat', memgb=6, tiers={'thorough': {'slices': mk(6), 'timeout': 3000}})
 C06('vtmf', 'h_vtmf_group', ['BarnettSmartVTMF_dlog.cc', 'mpz_spowm.cc', 'mpz_sprime.cc'], 'BarnettSmartVTMF_dlog::CheckGroup/CheckElement == specification (random and canonical generator)')
 C06('pvss', 'h_pvss_group', ['PedersenVSS.cc', 'mpz_spowm.cc', 'mpz_sprime.cc'], 'PedersenVSS::CheckGroup/CheckElement == specification (verifiable generator, h != g)')
+
+# ------------------------------------------------------------------ C16 (verifiers == textbook)
+ASTC_TU = ['CanettiGennaroJareckiKrawczykRabinASTC.cc', 'GennaroJareckiKrawczykRabinDKG.cc', 'JareckiLysyanskayaASTC.cc', 'PedersenVSS.cc', 'mpz_spowm.cc', 'mpz_sprime.cc']
+PROTO('C16', 'dss_verify', 'C16_verify.cc', 'h_dss_verify', 'CanettiGennaroJareckiKrawczykRabinDSS::Verify == DSA verification equation and range conditions, both directions',
+      'public key y = g^x (all x), m, r, s in [-2, 2q+2)', tu=ASTC_TU, groups=[GRP(23, 11, 2, 2), GRP(11, 5, 3, 2)], groupsT=[GRP(23, 11, 2, 2), GRP(11, 5, 3, 2), GRP(47, 23, 2, 2), GRP(29, 7, 7, 4)])
+PROTO('C16', 'nts_verify', 'C16_verify.cc', 'h_nts_verify', 'GennaroJareckiKrawczykRabinNTS::Verify == Schnorr verification equation, both directions',
+      'public key y = g^x (all x), m, c in [-1, 2^4], s in [-q, 2q]', tu=ASTC_TU, groups=[GRP(23, 11, 2, 2), GRP(11, 5, 3, 2)], groupsT=[GRP(23, 11, 2, 2), GRP(11, 5, 3, 2), GRP(47, 23, 2, 2), GRP(29, 7, 7, 4)])
+
+# ------------------------------------------------------------------ C18 (oblivious transfer)
+EOTP_TU = ['NaorPinkasEOTP.cc', 'mpz_spowm.cc', 'mpz_sprime.cc']
+for _n in (2, 3):
+    PROTO('C18', 'ot_n%d' % _n, 'C18_eotp.cc', 'h_ot_n', '1-of-%d: chooser outputs M_sigma (honest run, all coins)' % _n, 'index sigma, messages in G, all coins of chooser and sender',
+          tu=EOTP_TU, groups=[dict(GRP(11, 5, 3, 2), H_N=_n)], groupsT=[dict(GRP(11, 5, 3, 2), H_N=_n), dict(GRP(7, 3, 2, 2), H_N=_n), dict(GRP(23, 11, 2, 2), H_N=_n)], timeout=1200)
+    HARNESSES[-1]['defines'] = dict(HARNESSES[-1]['defines'], H_MAXDRAWS=24)
+    PROTO('C18', 'ot_n%d_firstmove' % _n, 'C18_eotp.cc', 'h_ot_n_firstmove', '1-of-%d sender answers exactly well-formed first moves (group elements, pairwise distinct z_i)' % _n, 'x, y, z_i each in [-1, p+2), sender coins',
+          tu=EOTP_TU, groups=[dict(GRP(11, 5, 3, 2), H_N=_n)], groupsT=[dict(GRP(11, 5, 3, 2), H_N=_n), dict(GRP(7, 3, 2, 2), H_N=_n), dict(GRP(23, 11, 2, 2), H_N=_n)], timeout=1200)
+    HARNESSES[-1]['defines'] = dict(HARNESSES[-1]['defines'], H_MAXDRAWS=24)
+GCRY_MODELS = ['gmp_model.c', 'libc_model.c', 'gcry_model.c']
+H(id='C12_pgp_mpidecode', property='C12', src='C12_openpgp.cc', entry='h_mpi_decode', tu=PGP, unwind=12, defines={'H_MAXLEN': 16}, models=GCRY_MODELS,
+  desc='arbitrary bytes into PacketMPIDecode: no out-of-bounds access, abort, non-standard exception', symbolic='every byte string of the slice length',
+  bounds='input length 0..6 (quick) / ..9 (thorough); gcry_mpi model holds up to 8 magnitude bytes', assumptions=['libgcrypt MPI functions replaced by models/gcry_model.c'],
+  slices=[{'H_LEN': n} for n in range(0, 7)], tiers={'thorough': {'slices': [{'H_LEN': n} for n in range(0, 10)]}})
+H(id='C19_mpi', property='C19', src='C19_openpgp.cc', entry='h_mpi_roundtrip', tu=PGP, unwind=12, models=GCRY_MODELS,
+  desc='PacketMPIEncode == RFC 4880 3.2 layout; PacketMPIDecode(PacketMPIEncode(x)) == x', symbolic='all integers below 2^24 (incl. 0, leading-zero cases)', bounds='values < 2^24',
+  assumptions=['libgcrypt MPI functions replaced by models/gcry_model.c'])
+for _e, _n, _tu in (('h_ctor_pvss', 'ctor_pvss', ['PedersenVSS.cc']), ('h_ctor_vtmf_stream', 'ctor_vtmf_stream', ['BarnettSmartVTMF_dlog.cc']), ('h_ctor_eotp', 'ctor_eotp', ['NaorPinkasEOTP.cc'])):
+    H(id='C12_' + _n, property='C12', src='C12_ctor.cc', entry=_e, tu=_tu + ['mpz_spowm.cc', 'mpz_sprime.cc'], unwind=24, replace=PROTO_REPLACE,
+      defines={'VF_BITS': 10, 'H_MAXDRAWS': 4, 'MINISTL_STREAM_CAP': 256, 'H_DBITS': 4, 'H_HMAX': 5, 'MINISTL_STRING_MINCAP': 63}, config={'TMCG_MAX_FPOWM_T': 8},
+      desc='constructor + CheckGroup on hostile integers (zero / negative / tiny modulus): clean refusal, never process death', symbolic='q, g, h/k in [-1, 8)', assumptions=PROTO_ASSUME,
+      bounds='modulus p in {-1,0,1,2,3,7} one query each', slices=[{'H_P': p} for p in (-1, 0, 1, 2, 3, 7)], backend='kissat', memgb=6)
